@@ -3,7 +3,6 @@ from abc import ABC, abstractmethod
 from geneticengine.evaluation.tracker import (
     MultiObjectiveProgressTracker,
     ProgressTracker,
-    SingleObjectiveProgressTracker,
 )
 
 
@@ -42,8 +41,7 @@ class TargetFitness(SearchBudget):
         self.value = float(value)
 
     def is_done(self, tracker: ProgressTracker):
-        assert isinstance(tracker, SingleObjectiveProgressTracker)
-        best = tracker.get_best_individual()
+        best = tracker.get_best_individual()  # every tracker answers this (SimpleGP pairs this budget with both kinds)
         if best is None:
             return False
         comps = best.get_fitness(tracker.get_problem()).fitness_components
@@ -59,6 +57,8 @@ class TargetMultiFitness(SearchBudget):
 
     def is_done(self, tracker: ProgressTracker):
         assert isinstance(tracker, MultiObjectiveProgressTracker)
+        if not tracker.get_best_individuals():  # checked before anything was evaluated (random search, HC, 1+1)
+            return False
         comps = tracker.get_best_individuals()[0].get_fitness(tracker.get_problem()).fitness_components
         assert len(comps) == len(self.targets)
         return all(abs(c - v) < 0.001 for v, c in zip(self.targets, comps))
@@ -70,5 +70,7 @@ class TargetMultiSameFitness(SearchBudget):
 
     def is_done(self, tracker: ProgressTracker):
         assert isinstance(tracker, MultiObjectiveProgressTracker)
+        if not tracker.get_best_individuals():  # checked before anything was evaluated (random search, HC, 1+1)
+            return False
         comps = tracker.get_best_individuals()[0].get_fitness(tracker.get_problem()).fitness_components
         return all(abs(c - self.target_fitness) < 0.001 for c in comps)
